@@ -171,8 +171,8 @@ impl Profile {
             w_drop: 25,
             w_detach: 4,
             w_dealloc: 4,
-            w_clone: 0,
-            w_droparena: 0,
+            w_clone: 2,
+            w_droparena: 2,
             w_discard: 0,
             w_minseg: 0,
             w_incdisc: 0,
